@@ -1,16 +1,32 @@
 (* C01 — async execution returns exactly what sequential evaluation would.
-   Statements only; proofs in proofs/MachineC01.v and proofs/ProgProofs.v.
+   Statements only; proofs in proofs/MachineC01.v, proofs/MachineC01S.v and proofs/ProgProofs.v.
 
-   C01_async_eq_seq_tree is the whole-program theorem for yield-only TREE programs: every future is
-   created in the yield expression that awaits it (arbitrary nesting of tuples/lists/dicts, None,
-   non-future objects, constant / error / lazy futures, batch items of any kinds, child tasks to any
-   depth, try/except by way of the continuations, plain AsyncContexts and scoped overrides), for every
-   flush order (oracle), priority assignment, KEEP_DEPENDENCIES setting and fuel.  Hypotheses:
-   [pointwise] - no flush body raises half way (otherwise an item's answer depends on its position
-   in the batch and "sequential evaluation" is not defined); [no_unwind] - the runaway-recursion guard
-   did not fire.  Programs with stored handles (DAGs) and synchronous re-entry are NOT covered by this
-   theorem; for them C01 rests on the correspondence and the monitors (statement kept below). *)
-From Asynq Require Import Machine Seq proofs.ProgProofs proofs.MachineC08 proofs.MachineC01.
+   PROVED, for every flush order (oracle), priority assignment, KEEP_DEPENDENCIES setting and fuel:
+   - C01_async_eq_seq_tree: the whole-program theorem for yield-only TREE programs: every future is created in
+     the yield expression that awaits it (arbitrary nesting of tuples/lists/dicts, None, non-future objects,
+     constant / error / lazy futures, batch items of any kinds, child tasks to any depth, try/except by way of
+     the continuations, plain AsyncContexts and scoped overrides).
+   - C01_async_eq_seq_stree (appended at the end, proofs/MachineC01S.v): the same for the class [stree] = tree +
+     SYNCHRONOUS CALLS of fresh tasks, fn(args) / fn.asynq(args).value() inside task code, i.e. the program
+     Let (FTask q) (fun h => Sync h k), nested to any depth, the callees being stree programs themselves
+     (they may yield batch items, child tasks, call further functions ...).  The reference is [evals]
+     (= Seq.eval plus: a call evaluates the callee on the spot); on tree programs evals = eval
+     (C01_evals_agrees_with_eval_on_tree) and tree is included in stree, so the stree theorem subsumes the tree
+     theorem.  The nested scheduler loops may flush any scheduled batch, including batches the outer
+     computations wait for (C01_stree_hypotheses_satisfiable exhibits such a run); the value obtained by
+     every caller is still the sequential one.  C01_async_eq_seq_stree_after_history: the same on a scheduler
+     state left behind by earlier computations, and the state left behind satisfies the invariant again, so
+     the theorem applies to every computation of a history of stree computations.
+   Hypotheses of all of them: [pointwise] - no flush body raises half way (otherwise an item's answer depends
+   on its position in the batch and "sequential evaluation" is not defined); [no_unwind] - the
+   runaway-recursion guard did not fire.
+
+   NOT PROVED (statement kept at the end of the file): programs with stored handles - a future created by
+   Let and awaited later or twice (DAGs), LOld leaves, value() on an already existing future (including a
+   synchronous value() on a batch item or on somebody else's task) -, programs reading scoped state or the
+   active task (ReadVar / Probe; their sequential meaning needs an environment), contexts whose
+   pause/resume raise; for them C01 rests on the correspondence and the monitors. *)
+From Asynq Require Import Machine Seq proofs.ProgProofs proofs.MachineC08 proofs.MachineC01 proofs.MachineC01S.
 
 Theorem C01_async_eq_seq_tree : forall P p n o,
   pointwise P -> tree p ->
@@ -51,6 +67,71 @@ Theorem C01_hypotheses_satisfiable :
 Proof. exact (conj c01_demo_tree c01_demo_runs). Qed.
 Print Assumptions C01_hypotheses_satisfiable.
 
-(* The general statement (any program, including stored handles / DAGs and synchronous re-entry) is
-   not proved: a sequential reference for those needs an environment of handles and, for HOAS bodies, a
-   parametricity-style well-formedness predicate; that part of C01 rests on the correspondence. *)
+(* ---- tree programs with synchronous calls (proofs/MachineC01S.v) ---- *)
+Theorem C01_async_eq_seq_stree : forall P p n o,
+  pointwise P -> stree p ->
+  let h := fst (create [] (FTask p) (st0 P)) in
+  let s1 := snd (create [] (FTask p) (st0 P)) in
+  no_unwind P n (start h s1) -> c_mode (run P n (start h s1)) = MDone o -> o = evals p.
+Proof. exact async_eq_seq_stree. Qed.
+Print Assumptions C01_async_eq_seq_stree.
+
+(* on a scheduler state left behind by earlier computations; the state left behind is again such a state *)
+Theorem C01_async_eq_seq_stree_after_history : forall P spec s p n o,
+  pointwise P -> stree p -> SI spec (fun _ => False) s ->
+  let h := fst (create [] (FTask p) s) in
+  let s1 := snd (create [] (FTask p) s) in
+  no_unwind P n (start h s1) -> c_mode (run P n (start h s1)) = MDone o ->
+  o = evals p /\ exists spec', SI spec' (fun _ => False) (c_st (run P n (start h s1))).
+Proof. exact async_eq_seq_stree_state. Qed.
+Print Assumptions C01_async_eq_seq_stree_after_history.
+
+Theorem C01_stree_initial_state : forall P, SI (fun _ => None) (fun _ => False) (st0 P).
+Proof. exact SI_empty. Qed.
+Print Assumptions C01_stree_initial_state.
+
+(* the new reference agrees with Seq.eval on the yield-only fragment, which is part of the new class *)
+Theorem C01_evals_agrees_with_eval_on_tree : forall p, tree p -> stree p /\ evals p = eval p.
+Proof. exact (fun p H => conj (tree_stree p H) (evals_eval_tree p H)). Qed.
+Print Assumptions C01_evals_agrees_with_eval_on_tree.
+
+(* a synchronous call is evaluated on the spot *)
+Theorem C01_evals_call : forall q k, evals (Let (FTask q) (fun h => Sync h k)) = evals (k (evals q)).
+Proof. exact evals_call. Qed.
+Print Assumptions C01_evals_call.
+
+(* every transition preserves the invariant: computed futures carry their sequential outcome, every suspended
+   task's continuation evaluates to its sequential outcome, and every caller suspended in a synchronous call
+   (FValue t k frame) continues, with the callee's sequential outcome oh, to its own: spec t = evals (k oh) *)
+Theorem C01_stree_invariant_step : forall P, pointwise P -> forall res spec c,
+  is_unwind (c_mode c) = false -> CI res spec c -> exists spec', CI res spec' (step P c).
+Proof. exact s01_step. Qed.
+Print Assumptions C01_stree_invariant_step.
+
+(* non-vacuity: a child task awaited together with a batch item calls a function synchronously, which calls
+   another one and then yields an item of the same batch kind; the wait loop nested below the caller flushes the
+   batch holding the outer computation's item (EvFlush 0 0 [[2]; [5]] between EvGot [3] and EvGot [1]) *)
+Theorem C01_stree_hypotheses_satisfiable :
+  stree c01s_demo /\
+  let P := mkP [] 1000 false [] in
+  let h := fst (create [] (FTask c01s_demo) (st0 P)) in
+  let s1 := snd (create [] (FTask c01s_demo) (st0 P)) in
+  no_unwind_b P 60 (start h s1) = true /\
+  c_mode (run P 60 (start h s1)) = MDone (Ok (VTuple [VTuple [VTuple [VInt 7; VInt 3]; VInt 1]; VInt 5])) /\
+  evals c01s_demo = Ok (VTuple [VTuple [VTuple [VInt 7; VInt 3]; VInt 1]; VInt 5]) /\
+  rev (trace (c_st (run P 60 (start h s1)))) =
+    [EvStep [0] 0 (Ok VNone); EvStep [1] 0 (Ok VNone); EvStep [3] 0 (Ok VNone); EvStep [4] 0 (Ok VNone);
+     EvDone [4] (Ok (VInt 3)); EvGot [3] (Ok (VInt 3));
+     EvBefore 0 0; EvFlush 0 0 [[2]; [5]]; EvItemDone [2] (Ok (VInt 5)); EvItemDone [5] (Ok (VInt 7)); EvAfter 0 0;
+     EvStep [3] 1 (Ok (VInt 7)); EvDone [3] (Ok (VTuple [VInt 7; VInt 3]));
+     EvGot [1] (Ok (VTuple [VInt 7; VInt 3]));
+     EvDone [1] (Ok (VTuple [VTuple [VInt 7; VInt 3]; VInt 1]));
+     EvStep [0] 1 (Ok (VTuple [VTuple [VTuple [VInt 7; VInt 3]; VInt 1]; VInt 5]));
+     EvDone [0] (Ok (VTuple [VTuple [VTuple [VInt 7; VInt 3]; VInt 1]; VInt 5]))].
+Proof. exact (conj c01s_demo_stree c01s_demo_runs). Qed.
+Print Assumptions C01_stree_hypotheses_satisfiable.
+
+(* The general statement (any program, including stored handles / DAGs, value() on existing futures and reads
+   of scoped state) is not proved: a sequential reference for those needs an environment of handles and, for
+   HOAS bodies, a parametricity-style well-formedness predicate; that part of C01 rests on the
+   correspondence. *)
